@@ -476,6 +476,14 @@ def check(ctx):
     # is_simulation_in_progress reports the flag
     # (documented API; C20/C09 __del__ rely on it) -- not part of C01
 
+    # ---- C01.9 nobody withholds the end-of-run event ---------------------------------
+    o9 = Ob('C01.9', 'K1', 'the TERMINATE event (scheduled under the shared id -1) is never paused or cancelled: every pause / unpause / cancel call in the '
+                           'package is made by an asset for its own id -- otherwise a run would not end at start + duration, or a split run would drop events '
+                           'that an unsplit run executes')
+    obs.append(o9)
+    from . import c07 as _c07
+    _c07.own_id_only(ctx, o9)
+
     # ---- C01.8 unpause time -------------------------------------------------------
     o8 = Ob('C01.8', 'K6', 'an unpaused event is re-inserted at time + now - paused_at (hence never before now)')
     obs.append(o8)
